@@ -1,6 +1,7 @@
 import HexModel.Wire
 import HexModel.Parse
 import HexModel.Core.Hexital
+import HexModel.Core.Input
 /-
 The line-protocol driver: one operation per line in, canonical output lines out.
 -/
@@ -74,6 +75,23 @@ def indAcc (s : IndState Float) (what : String) (ps : List (String × String)) :
   | "candles_sum" => showRes (x.candlesSum (pInt ps "length" 1) nm idx)
   | _ => "bad-acc"
 
+/-- the caller's encoding of the candles (`enc=candle|dict|list|tlist`, `single=1` for one bare
+candle instead of a list of them), decoded by the model's `decodeInput` -/
+def decodeEnc (ps : List (String × String)) (cs : List (Candle Float)) : PyM (List (Candle Float)) :=
+  let single := param ps "single" == some "1"
+  match param ps "enc", cs with
+  | some "dict", [c] => if single then decodeInput (.dict (encodeDict c)) else decodeInput (.dicts [encodeDict c])
+  | some "dict", [] => decodeInput .empty
+  | some "dict", cs => decodeInput (.dicts (cs.map encodeDict))
+  | some "list", [c] => if single then decodeInput (.list (encodeList false c)) else decodeInput (.lists [encodeList false c])
+  | some "list", [] => decodeInput .empty
+  | some "list", cs => decodeInput (.lists (cs.map (encodeList false)))
+  | some "tlist", [c] => if single then decodeInput (.list (encodeList true c)) else decodeInput (.lists [encodeList true c])
+  | some "tlist", [] => decodeInput .empty
+  | some "tlist", cs => decodeInput (.lists (cs.map (encodeList true)))
+  | _, [c] => if single then decodeInput (.candle c) else decodeInput (.candles [c])
+  | _, cs => decodeInput (.candles cs)
+
 def hexOp (st : DState) (r : PyM (Hexital Float)) : DState × List String :=
   match r with
   | .ok h => ({ st with hex := some h }, ["ok"])
@@ -116,7 +134,7 @@ def step (st : DState) (line : String) : DState × List String :=
       match parseCandles n rest with
       | none => (st, ["bad-op"])
       | some (cs, _) =>
-        match m.append cs with
+        match (do let cs ← decodeEnc ps cs; m.append cs) with
         | .ok m' => ({ st with mgr := some m' }, ["ok"])
         | .error e => ({ st with mgr := none }, [s!"err {e}"])
     | _, _ => (st, ["bad-op"])
@@ -143,7 +161,7 @@ def step (st : DState) (line : String) : DState × List String :=
     | some s, some n =>
       match parseCandles n rest with
       | none => (st, ["bad-op"])
-      | some (cs, _) => indOp st (s.append cs)
+      | some (cs, _) => indOp st (do let cs ← decodeEnc ps cs; s.append cs)
     | _, _ => (st, ["bad-op"])
   | "icalc" :: _ =>
     match st.ind with
@@ -218,7 +236,7 @@ def step (st : DState) (line : String) : DState × List String :=
     | some h, some n =>
       match parseCandles n rest with
       | none => (st, ["bad-op"])
-      | some (cs, _) => hexOp st (h.append cs)
+      | some (cs, _) => hexOp st (do let cs ← decodeEnc ps cs; h.append cs)
     | _, _ => (st, ["bad-op"])
   | "hcalc" :: rest =>
     let (ps, _) := splitParams rest
